@@ -28,6 +28,8 @@ pub enum Mal {
     Ethertype(u16, u16),
     /// IPv6 next-header rewritten
     NextHeader(u16, u8),
+    /// version nibble of an Ethernet-framed packet rewritten (the EtherType stays): decoder and filter go by the EtherType
+    Version(u16, u8),
 }
 
 #[derive(Clone, Debug, Serialize, Deserialize, Hash)]
@@ -126,6 +128,18 @@ pub fn frames_of(c: &FiltCase) -> Vec<Packet> {
                     if c.trace.link == Link::Ether && f.len() > 14 {
                         f[12] = (t >> 8) as u8;
                         f[13] = t as u8;
+                        Some(f)
+                    } else {
+                        None
+                    }
+                }),
+            ),
+            Mal::Version(s, v) => (
+                s,
+                Box::new(move |p: &Packet| {
+                    let mut f = p.frame.clone();
+                    if c.trace.link == Link::Ether && f.len() > 14 {
+                        f[14] = (f[14] & 0x0f) | (v << 4);
                         Some(f)
                     } else {
                         None
@@ -306,6 +320,7 @@ pub fn mal() -> impl Strategy<Value = Mal> {
         3 => (any::<u16>(), any::<bool>()).prop_map(|(s, n)| Mal::Reframe(s, n)),
         1 => (any::<u16>(), prop_oneof![Just(0x0806u16), Just(0x86ddu16), Just(0x0800u16), any::<u16>()]).prop_map(|(s, t)| Mal::Ethertype(s, t)),
         1 => (any::<u16>(), prop_oneof![Just(0u8), Just(17u8), Just(44u8), Just(6u8)]).prop_map(|(s, n)| Mal::NextHeader(s, n)),
+        2 => (any::<u16>(), prop_oneof![Just(4u8), Just(5u8), Just(6u8), Just(0u8), Just(15u8)]).prop_map(|(s, v)| Mal::Version(s, v)),
     ]
 }
 
@@ -346,7 +361,8 @@ pub fn check_pool_with(c: &FiltCase, kind_sel: u8, workers: usize, st: &mut Stat
     use crate::pool::{run_pool, PoolCfg, PoolKind};
     // the dispatch hashers decode Ethernet and raw IP framing only (C18's quantifier): loopback re-framed copies are outside the pools' domain
     let mut c = c.clone();
-    c.mal.retain(|m| !matches!(m, Mal::Reframe(_, true)));
+    // ... and frames whose version nibble contradicts their EtherType are not frames of a connection for the hashers either
+    c.mal.retain(|m| !matches!(m, Mal::Reframe(_, true) | Mal::Version(..)));
     let c = &c;
     let spec = filter_of(c);
     let pk = frames_of(c);
